@@ -30,6 +30,7 @@ type jrClass struct {
 		Name   string `json:"name"`
 		Tables bool   `json:"tables"`
 		Params string `json:"params"`
+		PVals  string `json:"pvals"`
 		Extras bool   `json:"extras"`
 		Inputs string `json:"inputs"`
 	} `json:"jsonclass"`
@@ -94,6 +95,11 @@ func readClasses(path string) ([]jrClass, []string, error) {
 	}
 	return cls, nests, sc.Err()
 }
+
+// parameters that size or index something inside a kernel: a zero there is the crash recorded as a known
+// finding for the DEFAULTED case; explicit zeros are not explored for them, nor for StorageRouting at all
+// (its solver panics deliberately on the NaN that almost any zeroed parameter produces: same recorded root cause)
+var structuralParam = map[string]bool{"GR4J.X4": true, "DateGenerator.startMonth": true, "StorageRouting.RoutingPower": true, "StorageRouting.RoutingConstant": true}
 
 func hasTables(name string) bool { return len(sim.Catalog[name]().Description().Dimensions) > 0 }
 
@@ -175,7 +181,11 @@ func buildRequest(r *rand.Rand, name string, cl *jrClass, T int) (doc map[string
 		pi := scalarIdx[k]
 		p := desc.Parameters[pi]
 		if chosen[pi] {
-			params = append(params, map[string]interface{}{"Name": p.Name, "Value": mc.PVals[pi][0][0]})
+			val := mc.PVals[pi][0][0]
+			if cl.Class.PVals == "zero" && !structuralParam[name+"."+p.Name] && name != "StorageRouting" {
+				val = 0 // an explicit zero is a value like any other (structural parameters excepted: see DESIGN.md)
+			}
+			params = append(params, map[string]interface{}{"Name": p.Name, "Value": val})
 			given = append(given, p.Name)
 		} else {
 			missing = append(missing, p.Name)
@@ -195,7 +205,7 @@ func buildRequest(r *rand.Rand, name string, cl *jrClass, T int) (doc map[string
 	iperm := r.Perm(ni)
 	itake := 0
 	switch cl.Class.Inputs {
-	case "all", "unequal":
+	case "all", "unequal", "emptyone", "emptyall":
 		itake = ni
 	case "some":
 		if ni > 1 {
@@ -227,6 +237,14 @@ func buildRequest(r *rand.Rand, name string, cl *jrClass, T int) (doc map[string
 		} else {
 			inputs[k]["Values"] = v[:len(v)-1]
 		}
+	}
+	if cl.Class.Inputs == "emptyall" {
+		for k := range inputs {
+			inputs[k]["Values"] = []float64{}
+		}
+	}
+	if cl.Class.Inputs == "emptyone" && len(inputs) >= 2 {
+		inputs[r.Intn(len(inputs))]["Values"] = []float64{}
 	}
 	if cl.Class.Extras {
 		// a superset of the inputs: an undeclared series of a different length, listed FIRST
@@ -272,6 +290,9 @@ func jrGen(args []string) error {
 	for ci := range cls {
 		cl := &cls[ci]
 		cname := fmt.Sprintf("%s/%s/tables=%v/params=%s/extras=%v/inputs=%s", cl.Class.Form, cl.Class.Name, cl.Class.Tables, cl.Class.Params, cl.Class.Extras, cl.Class.Inputs)
+		if cl.Class.PVals == "zero" {
+			cname += "/pvals=zero"
+		}
 		for _, name := range modelNames() {
 			if cl.Class.Name == "known" && hasTables(name) != cl.Class.Tables {
 				continue
@@ -283,7 +304,7 @@ func jrGen(args []string) error {
 			for k := 0; k < per; k++ {
 				T := 1 + r.Intn(6)
 				doc, given, missing, ig, im, extreme := buildRequest(r, name, cl, T)
-				if cl.Class.Inputs == "unequal" && len(ig) < 2 {
+				if (cl.Class.Inputs == "unequal" || cl.Class.Inputs == "emptyone") && len(ig) < 2 {
 					continue // needs two series to disagree
 				}
 				if cl.Class.Inputs == "some" && len(im) == 0 {
